@@ -1116,6 +1116,7 @@ type Query struct {
 	AvoidNode func(*GNode) bool // nodes that may not be passed (a start node itself is not tested)
 	AvoidEdge func(*GEdge) bool // edges that may not be taken
 	NoFlags   bool              // ignore flag valuations (path-insensitive)
+	NonNil    []types.Object    // tracked error locals known to be non-nil at the start nodes
 	Assume    func(Fact) bool   // atoms taken to hold (Fact{x,true}: x holds; Fact{x,false}: x does not) while conditions and flag assignments are evaluated
 }
 
@@ -1160,16 +1161,24 @@ func (g *Graph) Reach(q Query) map[*GNode]bool {
 			push(state{e.To, nv})
 		}
 	}
+	v0 := Val(0)
+	for _, o := range q.NonNil {
+		if v, isV := o.(*types.Var); isV {
+			if i, ok := g.nilIx[v]; ok {
+				v0 = v0.set(i, tvT)
+			}
+		}
+	}
 	if q.FromEntry {
-		push(state{g.Entry, 0})
+		push(state{g.Entry, v0})
 	}
 	for _, n := range q.From {
-		leave(n, 0)
+		leave(n, v0)
 	}
 	for _, n := range q.FromAt {
-		v := Val(0)
+		v := v0
 		if !q.NoFlags {
-			v = g.transfer(n, 0)
+			v = g.transfer(n, v0)
 		}
 		leave(n, v)
 	}
@@ -1220,16 +1229,24 @@ func (g *Graph) ReachVals(q Query) map[*GNode]map[Val]bool {
 			push(state{e.To, nv})
 		}
 	}
+	v0 := Val(0)
+	for _, o := range q.NonNil {
+		if v, isV := o.(*types.Var); isV {
+			if i, ok := g.nilIx[v]; ok {
+				v0 = v0.set(i, tvT)
+			}
+		}
+	}
 	if q.FromEntry {
-		push(state{g.Entry, 0})
+		push(state{g.Entry, v0})
 	}
 	for _, n := range q.From {
-		leave(n, 0)
+		leave(n, v0)
 	}
 	for _, n := range q.FromAt {
-		v := Val(0)
+		v := v0
 		if !q.NoFlags {
-			v = g.transfer(n, 0)
+			v = g.transfer(n, v0)
 		}
 		leave(n, v)
 	}
